@@ -96,7 +96,9 @@ def _setup(interp):
     def calculate_chunks(interp, f, args, kwargs):
         st = sym.get_state()
         st.ghost["calculated"] = st.ghost.get("calculated", 0) + 1
-        st.ghost["calc_list"] = list(args[0].ordered_objects) if args[0].ordered_objects is not None else None
+        lst = args[0].ordered_objects
+        st.ghost["calc_list_obj"] = lst
+        st.ghost["calc_list"] = list(lst) if isinstance(lst, list) else None
         return None
 
     interp.contracts_at_calls["nptdms.tdms_segment:TdmsSegmentObject.read_raw_data_index"] = read_raw_data_index
@@ -386,3 +388,195 @@ def _segment_index_cache(vc):
         vc.ensure("index/maps-each-path-to-its-position-in-THIS-list[%d]" % i, lookup(ix, o.path) == i)
     again = vc.call_method(cache, "get_index", new_objs)
     vc.ensure("repeat-lookup-returns-the-cached-dictionary", again.kind == "ret" and again.value is ix)
+
+
+# ---------------------------------------------------------------------------- one listed object = one step of the spec
+#
+# The per-object helpers of read_segment_objects, each against the step of spec.inherit.denote it implements, for an
+# object list of ANY length and ANY position in it (no shape enumeration): the list is a recorder of the stores and
+# appends made, the object, the header and the file are symbolic.
+
+class SlotList(object):
+    """self.ordered_objects of arbitrary length: records what is stored and appended; nothing else is allowed"""
+    _absent = ()
+
+    def __init__(self):
+        self.stores = []
+        self.appends = []
+
+    def __setitem__(self, k, v):
+        if isinstance(k, slice):
+            raise sym.Unsupported("slice store into the object list")
+        self.stores.append((k, v))
+
+    def append(self, v):
+        self.appends.append(v)
+
+
+def _step_world(vc, tag):
+    st = vc.st
+    f = SFile("f")
+    pos0 = vc.int("pos0", lo=0)
+    f.pos = pos0
+    f.assume_present = True
+    lst = SlotList()
+    seg = vc.new("tdms_segment.TdmsSegment", position=vc.int("position", lo=0), toc_mask=vc.int("toc", lo=0),
+                 next_segment_pos=vc.int("next", lo=0), data_position=vc.int("datapos", lo=0), num_chunks=0,
+                 final_chunk_lengths_override=None, ordered_objects=lst, object_index=None,
+                 segment_incomplete=False, has_daqmx_objects_cached=None, chunk_size_cached=None,
+                 data_objects_cached=None)
+    path = fresh_str(st, "path")
+    obj = mk_segobj(vc, path, tag)
+    header = vc.int("header", lo=0, hi=0xFFFFFFFF)
+    order = ">" if vc.interp.truth(vc.bool("big")) else "<"
+    return f, pos0, lst, seg, path, obj, header, order
+
+
+def _expected_step(obj_view, header, pos0):
+    """spec.inherit.denote for one entry whose path is known (carried over or remembered by the reader)"""
+    (path, has, idx) = obj_view
+    full = (_lift(z3.Function("IDX_NV", z3.IntSort(), z3.IntSort())(sym.z3int(pos0))),
+            _lift(z3.Function("IDX_SIZE", z3.IntSort(), z3.IntSort())(sym.z3int(pos0))),
+            TypeTok(_lift(z3.Function("IDX_TYPE", z3.IntSort(), z3.IntSort())(sym.z3int(pos0)))))
+    out = INH.denote([obj_view], [], False, [(path, header, full)])
+    assert len(out) == 1
+    return out[0]
+
+
+def _check_result_object(vc, what, got, exp, old, old_snap, header, f, pos0, order):
+    st = vc.st
+    (epath, ehas, eidx) = exp
+    vc.ensure(what + "/path", got.path == epath)
+    vc.ensure(what + "/has-data", got.has_data == ehas)
+    vc.ensure(what + "/number-of-values", got.number_values == eidx[0])
+    vc.ensure(what + "/data-size", got.data_size == eidx[1])
+    vc.ensure(what + "/data-type", types_equal(got.data_type, eidx[2]))
+    (o, opath, ohas, onv, osize, otyp) = old_snap
+    vc.ensure("frame/earlier-object-unchanged", And(old.has_data == ohas, old.number_values == onv,
+                                                    old.data_size == osize, old.data_type is otyp,
+                                                    old.path is opath), kind="frame")
+    reads = st.ghost.get("index_reads", [])
+    is_full = vc.interp.truth(And(header != INH.NO_DATA, header != INH.SAME))
+    if is_full:
+        vc.ensure("full-index/read-once-at-the-cursor-with-this-header-and-byte-order",
+                  len(reads) == 1 and
+                  vc.interp.truth(And(reads[0][1] == pos0, reads[0][2] == header)) and reads[0][3] == order)
+    else:
+        vc.ensure("no-index-in-entry/nothing-read", len(reads) == 0 and vc.interp.truth(f.pos == pos0))
+
+
+@harness("update_existing_object", ["tdms_segment.TdmsSegment._update_existing_object",
+                                    "tdms_segment.TdmsSegment._new_segment_object"],
+         ["C02"], setup=_setup, level="proof",
+         note="one listed object that is already in the carried-over list: object list of any length, any position")
+def _update_existing_object(vc):
+    f, pos0, lst, seg, path, obj, header, order = _step_world(vc, "existing")
+    k = vc.int("slot", lo=0)
+    snap = snapshot(obj)
+    before = view(obj)
+    exp = _expected_step(before, header, pos0)
+    out = vc.call_method(seg, "_update_existing_object", k, obj, header, f, order)
+    vc.ensure("no-exception", out.kind == "ret")
+    if out.kind != "ret":
+        return
+    vc.ensure("nothing-appended", len(lst.appends) == 0)
+    vc.ensure("at-most-one-store", len(lst.stores) <= 1)
+    vc.ensure("list-object-not-replaced", seg.ordered_objects is lst)
+    if len(lst.stores) == 1:
+        (kk, got) = lst.stores[0]
+        vc.ensure("store/at-the-object's-own-position", kk == k)
+        _check_result_object(vc, "stored", got, exp, obj, snap, header, f, pos0, order)
+    elif len(lst.stores) == 0:
+        # slot left as it is: the object there must already be what the entry means
+        _check_result_object(vc, "kept", obj, exp, obj, snap, header, f, pos0, order)
+
+
+@harness("reuse_previous_object", ["tdms_segment.TdmsSegment._reuse_previous_object",
+                                   "tdms_segment.TdmsSegment._new_segment_object"],
+         ["C02"], setup=_setup, level="proof",
+         note="one listed object that is not in the carried-over list but known to the reader from an earlier "
+              "segment: object list of any length")
+def _reuse_previous_object(vc):
+    f, pos0, lst, seg, path, obj, header, order = _step_world(vc, "remembered")
+    snap = snapshot(obj)
+    before = view(obj)
+    # spec: path not carried over, most recent index remembered per path
+    full = (_lift(z3.Function("IDX_NV", z3.IntSort(), z3.IntSort())(sym.z3int(pos0))),
+            _lift(z3.Function("IDX_SIZE", z3.IntSort(), z3.IntSort())(sym.z3int(pos0))),
+            TypeTok(_lift(z3.Function("IDX_TYPE", z3.IntSort(), z3.IntSort())(sym.z3int(pos0)))))
+    exp_list = INH.denote([], [(path, before[2])], False, [(path, header, full)])
+    assert len(exp_list) == 1
+    exp = exp_list[0]
+    out = vc.call_method(seg, "_reuse_previous_object", obj, header, f, order)
+    vc.ensure("no-exception", out.kind == "ret")
+    if out.kind != "ret":
+        return
+    vc.ensure("nothing-stored-into-an-existing-slot", len(lst.stores) == 0)
+    vc.ensure("exactly-one-object-appended", len(lst.appends) == 1)
+    vc.ensure("list-object-not-replaced", seg.ordered_objects is lst)
+    if len(lst.appends) != 1:
+        return
+    got = lst.appends[0]
+    _check_result_object(vc, "appended", got, exp, obj, snap, header, f, pos0, order)
+    # the earlier object itself may only be appended when it already says what this entry means
+    if got is obj:
+        vc.ensure("earlier-object-shared-only-when-unchanged", obj.has_data == exp[1])
+
+
+@harness("new_segment_object", ["tdms_segment.TdmsSegment._new_segment_object"], ["C02"], level="proof",
+         note="an object seen for the first time starts without data and without an index; DAQmx headers select "
+              "the DAQmx object class")
+def _new_segment_object(vc):
+    st = vc.st
+    seg = vc.new("tdms_segment.TdmsSegment", position=0, toc_mask=vc.int("toc", lo=0), next_segment_pos=0,
+                 data_position=0, num_chunks=0, final_chunk_lengths_override=None, ordered_objects=None,
+                 object_index=None, segment_incomplete=False, has_daqmx_objects_cached=None,
+                 chunk_size_cached=None, data_objects_cached=None)
+    path = fresh_str(st, "path")
+    header = vc.int("header", lo=0, hi=0xFFFFFFFF)
+    out = vc.call_method(seg, "_new_segment_object", path, header)
+    vc.ensure("no-exception", out.kind == "ret")
+    if out.kind != "ret":
+        return
+    o = out.value
+    vc.ensure("path", o.path is path)
+    vc.ensure("starts-without-data", o.has_data == False)              # noqa: E712
+    vc.ensure("starts-without-index", And(o.number_values == 0, o.data_size == 0, o.data_type is None))
+    daqmx = vc.interp.truth(Or(header == 0x1269, header == 0x126A))
+    vc.ensure("object-class-follows-the-header",
+              o._cls is vc.interp.get("daqmx.DaqmxSegmentObject" if daqmx else "tdms_segment.TdmsSegmentObject"))
+
+
+@harness("reuse_previous_segment_metadata", ["tdms_segment.TdmsSegment._reuse_previous_segment_metadata"],
+         ["C02"], setup=_setup, level="proof",
+         note="a segment without a metadata block shares the previous segment's object list (of any length) and "
+              "path index; without a previous segment it is rejected")
+def _reuse_previous_segment_metadata(vc):
+    st = vc.st
+    seg = vc.new("tdms_segment.TdmsSegment", position=vc.int("position", lo=0), toc_mask=vc.int("toc", lo=0),
+                 next_segment_pos=vc.int("next", lo=0), data_position=vc.int("datapos", lo=0), num_chunks=0,
+                 final_chunk_lengths_override=None, ordered_objects=None, object_index=None,
+                 segment_incomplete=False, has_daqmx_objects_cached=None, chunk_size_cached=None,
+                 data_objects_cached=None)
+    have_prev = vc.interp.truth(vc.bool("have_prev"))
+    if have_prev:
+        lst = SlotList()
+        index = Tok("prev-index") if vc.interp.truth(vc.bool("prev_has_index")) else None
+        prev = vc.new("tdms_segment.TdmsSegment", ordered_objects=lst, object_index=index, position=0, toc_mask=14,
+                      num_chunks=0)
+    else:
+        prev = None
+    out = vc.call_method(seg, "_reuse_previous_segment_metadata", prev)
+    if prev is None:
+        vc.ensure("no-previous-segment-is-rejected", out.raised(ValueError))
+        return
+    vc.ensure("no-exception", out.kind == "ret")
+    if out.kind != "ret":
+        return
+    vc.ensure("same-object-list-as-the-previous-segment", seg.ordered_objects is lst)
+    vc.ensure("same-path-index-as-the-previous-segment", seg.object_index is index)
+    vc.ensure("previous-list-untouched", len(lst.stores) == 0 and len(lst.appends) == 0, kind="frame")
+    vc.ensure("previous-segment-keeps-its-list-and-index",
+              prev.ordered_objects is lst and prev.object_index is index, kind="frame")
+    vc.ensure("chunks-recomputed-once-after-the-list-is-set",
+              st.ghost.get("calculated", 0) == 1 and st.ghost["calc_list_obj"] is lst)
